@@ -719,9 +719,9 @@ func main() {
 		Preamble: "From Coq Require Import List ZArith Bool Uint63.\nFrom Verif Require Import model.Scrape corr.CorrC37.\nImport ListNotations.\nOpen Scope uint63_scope.\n",
 		Type:     "case",
 		Footer:   gallina.StdFooter,
-		PerShard: 50,
+		PerShard: 75,
 	}
-	n := f.Count(130, 2400)
+	n := f.Count(130, 1600)
 	maxSteps := 25
 	if f.Tier == "thorough" {
 		maxSteps = 50
